@@ -291,6 +291,39 @@ def axiom_audit(prop, modules, theorems):
 
 # ------------------------------------------------------------------ running cases
 
+def run_stream(cmd, lines, name, max_crashes=40):
+    """feed `id line` records to a runner and collect `id result` lines.  A runner that dies (signal, abort) is restarted after the
+    record it died on; that record's result is `crash <rc>` (the crate brought the process down on this input)."""
+    res = {}
+    start = 0
+    crashes = 0
+    raw = []
+    n = len(lines)
+    while start < n:
+        text = "".join(f"{i} {lines[i]}\n" for i in range(start, n))
+        p = subprocess.run(cmd, input=text, stdout=subprocess.PIPE, stderr=subprocess.PIPE, text=True)
+        raw.append(p.stdout)
+        for l in p.stdout.splitlines():
+            sp = l.split(" ", 1)
+            if len(sp) == 2 and sp[0].isdigit():
+                res[int(sp[0])] = sp[1]
+        if p.returncode == 0:
+            break
+        if name == "model":
+            raise BuildError(f"model runner failed rc={p.returncode}: {p.stderr[-2000:]}")
+        first_missing = next((i for i in range(start, n) if i not in res), None)
+        if first_missing is None:
+            break
+        crashes += 1
+        res[first_missing] = f"crash rc={p.returncode} {p.stderr.strip().splitlines()[-1][:120] if p.stderr.strip() else ''}".strip()
+        start = first_missing + 1
+        if crashes >= max_crashes:
+            for i in range(start, n):
+                res.setdefault(i, "crash-skipped")
+            break
+    return [res.get(i, "missing") for i in range(n)], "".join(raw)
+
+
 def run_cases(prop, lines, tag="cases"):
     """lines: list of protocol lines WITHOUT id.  returns (model_results, impl_results) raw strings"""
     d = os.path.join(WORK, prop)
@@ -302,18 +335,10 @@ def run_cases(prop, lines, tag="cases"):
     outs = []
     for exe, name in ((DRIVER, "model"), ([VHARNESS, "run"], "impl")):
         cmd = exe if isinstance(exe, list) else [exe]
-        with open(cases_path) as fin:
-            p = subprocess.run(cmd, stdin=fin, stdout=subprocess.PIPE, stderr=subprocess.PIPE, text=True)
-        if p.returncode != 0:
-            raise BuildError(f"{name} runner failed rc={p.returncode}: {p.stderr[-2000:]}")
-        res = {}
-        for l in p.stdout.splitlines():
-            sp = l.split(" ", 1)
-            if len(sp) == 2 and sp[0].isdigit():
-                res[int(sp[0])] = sp[1]
-        outs.append([res.get(i, "missing") for i in range(len(lines))])
+        out, raw = run_stream(cmd, lines, name)
+        outs.append(out)
         with open(os.path.join(d, f"{tag}.{name}.txt"), "w") as f:
-            f.write(p.stdout)
+            f.write(raw)
     return outs[0], outs[1]
 
 
@@ -324,16 +349,8 @@ def run_impl_only(prop, lines, tag="oracle"):
     with open(cases_path, "w") as f:
         for i, l in enumerate(lines):
             f.write(f"{i} {l}\n")
-    with open(cases_path) as fin:
-        p = subprocess.run([VHARNESS, "run"], stdin=fin, stdout=subprocess.PIPE, stderr=subprocess.PIPE, text=True)
-    if p.returncode != 0:
-        raise BuildError(f"impl runner failed rc={p.returncode}: {p.stderr[-2000:]}")
-    res = {}
-    for l in p.stdout.splitlines():
-        sp = l.split(" ", 1)
-        if len(sp) == 2 and sp[0].isdigit():
-            res[int(sp[0])] = sp[1]
-    return [res.get(i, "missing") for i in range(len(lines))]
+    out, _ = run_stream([VHARNESS, "run"], lines, "impl")
+    return out
 
 
 def run_sub(args, timeout=3600):
@@ -345,10 +362,50 @@ def run_sub(args, timeout=3600):
     return p.stdout.splitlines()
 
 
+def fcanon(vals):
+    """f64 result tokens with every NaN mapped to one token"""
+    out = []
+    for v in vals:
+        if v != "nan":
+            b = int(v, 16)
+            if (b >> 52) & 0x7FF == 0x7FF and b & ((1 << 52) - 1):
+                v = "nan"
+        out.append(v)
+    return out
+
+
+def fclass(vals):
+    """coarse class of f64 result tokens: nan / +inf / -inf / finite"""
+    out = []
+    for v in fcanon(vals):
+        out.append(v if v in ("nan", "7ff0000000000000", "fff0000000000000") else "fin")
+    return out
+
+
+F_STATS = {"bitwise_equal": 0, "spline_not_bitwise": 0, "compared": 0}
+
+
 def same(line, model, impl):
-    """correspondence relation of two result lines"""
+    """correspondence relation of two result lines.
+    Q: the texts are equal (exact rationals).  F: the model executed at IEEE double (Lean `Float`, same operations in the same
+    order as the crate) must give the same outcome and shape; Linear/Bilinear values must agree bit for bit (all NaNs equal);
+    CubicSpline values must agree in class (NaN / +-inf / finite) — the crate squares with `powf(x, 2.0)`, the model with `x*x`, which
+    a libm may round differently in the last place, so bitwise agreement there is recorded as a statistic, not required."""
     if line.split(" ", 1)[0] == "F":
-        return Result(model).outcome() == Result(impl).outcome()
+        rm, ri = Result(model), Result(impl)
+        if rm.outcome() != ri.outcome():
+            return False
+        if rm.kind != "ok" or rm.vals is None or ri.vals is None:
+            return True
+        F_STATS["compared"] += 1
+        eq = fcanon(rm.vals) == fcanon(ri.vals)
+        if eq:
+            F_STATS["bitwise_equal"] += 1
+            return True
+        if " spl " in line:
+            F_STATS["spline_not_bitwise"] += 1
+            return fclass(rm.vals) == fclass(ri.vals)
+        return False
     return model == impl
 
 
